@@ -36,8 +36,33 @@ def _get_unit(unit):
     return _units[unit]
 
 
+_MARK_DIR = None  # shared by the workers of one verify_units call: names of obligations already refuted on some path
+
+
+def _mark_path(name):
+    return os.path.join(_MARK_DIR, hashlib.sha256(name.encode()).hexdigest()[:24]) if _MARK_DIR else None
+
+
+def _already_refuted(name):
+    p = _mark_path(name)
+    return bool(p) and os.path.exists(p)
+
+
+def _mark_refuted(name):
+    p = _mark_path(name)
+    if p:
+        try:
+            open(p, "w").close()
+        except OSError:
+            pass
+
+
 def _solve_one(ob, budget):
     """-> result dict"""
+    if _already_refuted(ob.name):
+        # the same named obligation already has a counter-model on another path: do not spend the refutation budget
+        # again (a change that breaks an invariant fails it on hundreds of paths); only the cheap proof attempt is made
+        budget = dict(budget, z3=min(budget["z3"], 2), cvc5=0, finite=0)
     s = z3.Solver()
     s.set("timeout", int(budget["z3"] * 1000))
     for f in ob.pc:
@@ -60,6 +85,7 @@ def _solve_one(ob, budget):
         fr, k, fout = solve.run_finite(text, kmax=budget.get("kmax", 4))
         total += time.time() - t1
         if fr == "sat":
+            _mark_refuted(ob.name)
             return {"verdict": "refuted", "backend": f"z3-finite-scope(k={k})", "seconds": round(total, 3), "model": fout[:12000], "scope": k}, text
     if r == z3.unknown and budget.get("cvc5", 0) > 0:
         r2, out2, dt2 = solve.run_cvc5(text, budget["cvc5"])
@@ -69,7 +95,10 @@ def _solve_one(ob, budget):
             _local_cache[key] = res
             return res, text
     if r == z3.sat:
+        _mark_refuted(ob.name)
         return {"verdict": "refuted", "backend": "z3", "seconds": round(total, 3), "model": str(s.model())[:8000], "scope": None}, text
+    if budget.get("finite", 0) == 0 and budget.get("cvc5", 0) == 0 and _already_refuted(ob.name):
+        return {"verdict": "undecided", "backend": "skipped: the same obligation is already refuted on another path", "seconds": round(total, 3)}, text
     return {"verdict": "undecided", "backend": "z3,cvc5,finite-scope", "seconds": round(total, 3)}, text
 
 
@@ -139,6 +168,7 @@ def _cover(ob, budget):
 
 
 MAX_PATHS = int(os.environ.get("VERIF_MAX_PATHS", "1500"))
+UNIT_BUDGET_S = int(os.environ.get("VERIF_UNIT_BUDGET_S", "900"))  # wall-clock cap of one verify_units call (normal: 1-2 min)
 DEFAULT_BUDGETS = {"default": {"z3": 10, "cvc5": 20, "finite": 1, "kmax": 4}, "special": []}
 
 
@@ -149,6 +179,20 @@ def verify_units(units, budgets=None, workers=None, verbose=False):
     report = {u: {"paths": [], "results": [], "error": None, "src_hash": None, "seconds": 0.0} for u in units}
     t0 = time.time()
     ctx = mp.get_context("fork")
+    global _MARK_DIR
+    import shutil
+    import tempfile
+
+    os.makedirs(solve.CACHE_DIR, exist_ok=True)
+    _MARK_DIR = tempfile.mkdtemp(prefix="refuted_", dir=solve.CACHE_DIR)
+    try:
+        return _verify_units(units, budgets, workers, report, t0, ctx)
+    finally:
+        shutil.rmtree(_MARK_DIR, ignore_errors=True)
+        _MARK_DIR = None
+
+
+def _verify_units(units, budgets, workers, report, t0, ctx):
     with ctx.Pool(workers, maxtasksperchild=200) as pool:
         pending = []
         inflight = 0
@@ -156,7 +200,9 @@ def verify_units(units, budgets=None, workers=None, verbose=False):
         def submit(task):
             nonlocal inflight
             inflight += 1
-            pending.append(pool.apply_async(run_path, (task,)))
+            ar = pool.apply_async(run_path, (task,))
+            ar._vc_unit = task[0]
+            pending.append(ar)
 
         for u in units:
             try:
@@ -172,6 +218,8 @@ def verify_units(units, budgets=None, workers=None, verbose=False):
             still = []
             progressed = False
             for ar in pending:
+                if getattr(ar, "_vc_unit", None) is not None and report[ar._vc_unit]["error"] and not ar.ready():
+                    continue  # the unit is already undecided: its remaining paths are abandoned (killed with the pool)
                 if ar.ready():
                     progressed = True
                     out = ar.get()
@@ -187,8 +235,13 @@ def verify_units(units, budgets=None, workers=None, verbose=False):
                     if len(rep["paths"]) > MAX_PATHS:
                         rep["error"] = f"Unsupported: path explosion (> {MAX_PATHS} paths)"
                         continue
+                    if time.time() - t0 > UNIT_BUDGET_S:
+                        rep["error"] = f"Unsupported: verification time budget of {UNIT_BUDGET_S} s exceeded ({len(rep['paths'])} paths explored)"
+                        continue
                     for pf in out["pending"]:
-                        still.append(pool.apply_async(run_path, ((out["unit"], out["case"], pf, budgets),)))
+                        ar2 = pool.apply_async(run_path, ((out["unit"], out["case"], pf, budgets),))
+                        ar2._vc_unit = out["unit"]
+                        still.append(ar2)
                 else:
                     still.append(ar)
             pending = still
